@@ -24,6 +24,8 @@ def build(H, tier, seed):
     C.vc_codegen_product(H)
     for op in OPS:
         C.vc_product_operator(H, op)
+    from contracts import inverse_c as I
+    I.vc_products_generic(H, tier, only_ops=OPS)
     from contracts import dispatch_c as D
     D.vc_binary_chain(H)
     from contracts import codegen_glue_c as G
